@@ -100,6 +100,9 @@ func syncDir(dir string) error {
 	}
 
 	err = f.Sync()
+	if y.VerifEnabled {
+		y.VerifEvent("fs.syncdir", dir)
+	}
 	closeErr := f.Close()
 	if err != nil {
 		return y.Wrapf(err, "While syncing directory: %s.", dir)
